@@ -188,7 +188,7 @@ def hist_case(sc):
     recs, tab, ws = Wd.run_script(sc)
     W, H = sc["W"], sc["H"]
     nw = len(sc["widgets"])
-    head = [f"hist {W} {H} {int(sc.get('kitty_supported', True))} {int(sc.get('iterm2_supported', True))} "
+    head = [f"hist {W} {H} {int(sc.get('kitty_supported', True) or sc.get('forced', False))} {int(sc.get('iterm2_supported', True))} "
             f"{int(sc['term'] == 'konsole')} {nw}", str(len(tab))]
     for row in tab:
         head.append(" ".join(map(str, row)))
@@ -235,7 +235,7 @@ BEGIN, END = ctlseqs.BEGIN_SYNCED_UPDATE, ctlseqs.END_SYNCED_UPDATE
 def judge(sc, recs):
     term = sc["term"]
     W, H = sc["W"], sc["H"]
-    sup = sc.get("kitty_supported", True)
+    sup = sc.get("kitty_supported", True) or sc.get("forced", False)  # forced_support or is_supported()
     user_cleared = False  # `clear_images(…)` by the user since the last redraw of a new canvas
     zfail = None  # first drawn-z finding: reported at the end unless a ghost shows up later in the history
     for j, (st, rec) in enumerate(zip(sc["steps"], recs)):
@@ -392,6 +392,30 @@ KNOWN_SCRIPTS = {
                   {"op": "draw", "layout": ["hpile", [[6, ["fill", "x"]], [4, ["img", 0]], [None, ["fill", "."]]]]},
                   {"op": "stop"}, {"op": "start"}, {"op": "draw", "same": True},
                   {"op": "draw", "layout": ["hpile", [[4, ["img", 0]], [None, ["fill", "."]]]]}]},
+    # a terminal that is neither kitty nor konsole but speaks the kitty protocol (forced support): a row
+    # holding an image line is re-sent without the image moving (the neighbour's cells change; redraw screen)
+    "forced-support-resend": {
+        "term": "other", "forced": True, "kitty_supported": False, "iterm2_supported": False,
+        "W": 30, "H": 8, "cell": [4, 8],
+        "widgets": [{"style": "kitty", "iw": 40, "ih": 20, "upscale": True}],
+        "steps": [{"op": "draw", "layout": ["fcols", [[10, ["hpile", [[5, ["img", 0]], [None, ["fill", "."]]]]], [None, ["fill", "c"]]]]},
+                  {"op": "draw", "layout": ["fcols", [[10, ["hpile", [[5, ["img", 0]], [None, ["fill", "."]]]]], [None, ["fill", "d"]]]]},
+                  {"op": "clear"}, {"op": "draw", "same": True}]},
+    # a fresh process (support not probed yet, no image widget yet) on a terminal holding an earlier
+    # program's images: start/clear/stop must clear them
+    "fresh-support-start-clear": {
+        "term": "kitty", "fresh_support": True, "W": 30, "H": 12, "cell": [4, 8],
+        "leftover": [[1, 2, 3, 10, 1, 7], [1, 3, 3, 10, 1, 7], [1, 9, 0, 4, 1, 0]],
+        "widgets": [{"style": "kitty", "iw": 40, "ih": 20, "upscale": True}],
+        "steps": [{"op": "start"}, {"op": "clear"},
+                  {"op": "draw", "layout": ["hpile", [[4, ["img", 0]], [None, ["fill", "."]]]]},
+                  {"op": "stop"}]},
+    "fresh-support-clear-konsole": {
+        "term": "konsole", "fresh_support": True, "W": 30, "H": 12, "cell": [4, 8],
+        "leftover": [[1, 0, 0, 30, 1, -3]],
+        "widgets": [{"style": "kitty", "iw": 40, "ih": 20, "upscale": True}],
+        "steps": [{"op": "clear"}, {"op": "stop"}, {"op": "start"},
+                  {"op": "draw", "layout": ["hpile", [[4, ["img", 0]], [None, ["fill", "."]]]]}]},
     "konsole-iterm2-scroll": {
         "term": "konsole", "W": 30, "H": 12, "cell": [4, 8],
         "widgets": [{"style": "iterm2", "iw": 40, "ih": 40, "upscale": True}, {"style": "kitty", "iw": 40, "ih": 20}],
@@ -459,6 +483,15 @@ class C18(Property):
         UrwidImageCanvas._ti_disguise_state = 0
         del w, keep
         gc.collect()
+        # which terminal identities get `blend=False` (a delete-at-cursor before every image line)
+        blend = []
+        for name in ("kitty", "konsole", "wezterm", "iterm2", "other", ""):
+            Wd.env.set_env(name=name)
+            bw = UrwidImage(KittyImage(_IMG))
+            blend.append((name, bool(bw._ti_style_args.get("blend", True))))
+            del bw
+        Wd.env.reset_env()
+        gc.collect()
         Wd.reset_class_state()
         if cyc != ccyc:
             raise ValueError(f"widget and canvas disguise cycles differ: {cyc} {ccyc}")
@@ -469,6 +502,8 @@ class C18(Property):
             f"def zLimit : Int := {raising[0]}\n"
             f"def disguiseCycle : List Nat := [{', '.join(map(str, cyc))}]\n"
             f"def zProbe : List Int := [{', '.join(map(str, probe))}]\n"
+            "def blendTable : List (String × Bool) := ["
+            + ", ".join(f'("{n}", {str(b).lower()})' for n, b in blend) + "]\n"
             "end TIV.C18.Generated\n"
         )
         files = dict(gen_ctl())
@@ -525,9 +560,12 @@ class C18(Property):
         line, impl, fail, recs = hist_case(sc)
         self._cache[line] = (impl, fail)
         nd = sum(1 for s in sc["steps"] if s["op"] == "draw")
-        k = kind or ("hist-" + sc["term"] + ("-" + recs_kind(recs)))
+        k = kind or ("hist-" + sc["term"] + ("-forced" if sc.get("forced") else "")
+                     + ("-fresh" if sc.get("fresh_support") else "") + ("-" + recs_kind(recs)))
         yield Case(line, {"script": sc}, k, nd >= 2)
         # the twin against the Lean terminal, on the real bytes
+        if sc.get("leftover"):
+            return  # (the twin starts with placements the Lean `term` op does not know about)
         toks = []
         for rec in recs:
             if rec.get("toks") is None:
